@@ -542,8 +542,59 @@ func (cx *Ctx) roleFactory(s *Step, role string) string {
 func (cx *Ctx) stepsByFactory(ch *Chain, role, factoryKey string) []*Step {
 	var out []*Step
 	for _, s := range ch.Steps {
-		if cx.roleFactory(s, role) == factoryKey {
+		if cx.roleFactory(s, role) == factoryKey || len(cx.factoryCallsOfStep(s, role, factoryKey)) > 0 {
 			out = append(out, s)
+		}
+	}
+	return out
+}
+
+// factoryCallsOfStep: the calls of the factory function whose result is the step's role closure - handed over
+// directly (`WithLogicStep(factory(...), ...)`), or kept in a handler local that the role closure (a function literal
+// wrapping it, e.g. to record the error) calls: `check := factory(...)` ... `func() error { err = check(); return err }`.
+func (cx *Ctx) factoryCallsOfStep(s *Step, role, factoryKey string) []*ssa.Call {
+	w, fx := cx.W, cx.Fx
+	isFactoryCall := func(v ssa.Value) *ssa.Call {
+		if c, ok := v.(*ssa.Call); ok {
+			if g := calleeOf(c); g != nil && w.FuncKey(g) == factoryKey {
+				return c
+			}
+		}
+		return nil
+	}
+	if c := isFactoryCall(s.Arg[role]); c != nil {
+		return []*ssa.Call{c}
+	}
+	var out []*ssa.Call
+	seen := map[*ssa.Call]bool{}
+	for _, f := range s.Role[role] {
+		if f.Parent() == nil || w.FuncKey(f.Parent()) == factoryKey {
+			continue
+		}
+		for _, c := range callsIn(f) {
+			if c.Common().IsInvoke() || calleeOf(c) != nil {
+				continue
+			}
+			v := c.Common().Value
+			if fc := isFactoryCall(v); fc != nil && !seen[fc] {
+				seen[fc] = true
+				out = append(out, fc)
+				continue
+			}
+			ld, ok := v.(*ssa.UnOp)
+			if !ok || ld.Op != token.MUL {
+				continue
+			}
+			cell := fx.ownerCell(ld.X)
+			if cell == nil {
+				continue
+			}
+			for _, st := range fx.storesToCell(cell) {
+				if fc := isFactoryCall(st); fc != nil && !seen[fc] {
+					seen[fc] = true
+					out = append(out, fc)
+				}
+			}
 		}
 	}
 	return out
